@@ -476,7 +476,7 @@ fn big_tables(ctx: &Arc<Ctx>, work: &std::path::Path) {
 		let via_lookup = catch(|| rt.block_on(src.lookup((3, 1, 1))));
 		let via_stream = catch(|| rt.block_on(src.stream(TileBBox::new(3, 0, 0, 7, 7).unwrap())));
 		let want = reference_merge(&decoded);
-		let mut judge = |bytes: &[u8], path: &str| match mvt::decode_tile(bytes) {
+		let judge = |bytes: &[u8], path: &str| match mvt::decode_tile(bytes) {
 			Err(e) => ctxr.violation("merged tile is not a (uncompressed) vector tile", &format!("{label} ({path}): {e}"), case.clone()),
 			Ok(layers) => {
 				if let Some(why) = compare_layers(&layers, &want) {
